@@ -23,6 +23,9 @@ type TunCfg struct {
 	Legacy     bool // strip the negotiate header both ways
 	Cap        int
 	OpenMD     metadata.MD
+	// OpenInMD: the context that opens the tunnel also carries this (unrelated) INCOMING
+	// metadata, as it does when a tunnel is opened from inside a request handler.
+	OpenInMD metadata.MD
 	WithBreak  bool
 	// OpenTimeout puts a deadline on the context that opens the tunnel.
 	OpenTimeout time.Duration
@@ -152,6 +155,9 @@ func (w *World) OpenTunnel(cfg TunCfg) *Tun {
 	t.Cancel = cancel
 	if cfg.OpenMD != nil {
 		ctx = metadata.NewOutgoingContext(ctx, cfg.OpenMD.Copy())
+	}
+	if cfg.OpenInMD != nil {
+		ctx = metadata.NewIncomingContext(ctx, cfg.OpenInMD.Copy())
 	}
 	var opts []grpctunnel.TunnelOption
 	if cfg.ClientNoFC {
